@@ -91,3 +91,146 @@ pub fn guarded<T>(f: impl FnOnce() -> T) -> Result<T, String> {
 
 pub fn coq_text(s: &str) -> String { format!("[{}]%N", s.chars().map(|c| (c as u32).to_string()).collect::<Vec<_>>().join("; ")) }
 pub fn coq_opt_range(o: Option<std::ops::Range<usize>>) -> String { match o { Some(r) => format!("Some ({}, {})%nat", r.start, r.end), None => "None".into() } }
+
+// ------------------------------------------------------------------ reference denotation (Rust port of coq/Spec/Denote.v)
+// Used only at sizes the Coq evaluation does not reach.  It is tied to the Coq specification on every run by the `ref`
+// suite: on small generated cases its answers are compared, inside Coq, with `denote_events` and `expected_bonds`.
+pub mod reference {
+    use super::{clone_kind, Ev};
+    use purr::feature::{AtomKind, BondKind, Configuration, VirtualHydrogen};
+    use purr::graph::{Atom, Bond};
+    use std::collections::{HashMap, HashSet};
+    #[derive(Debug, PartialEq)]
+    pub enum RefErr { Join(usize, usize), Unmatched(Vec<usize>), Malformed }
+    enum Slot { Prev(BondKind, usize), Next(BondKind, usize), Ring(BondKind, usize) }
+    fn adj(k: &AtomKind) -> AtomKind {
+        match clone_kind(k) {
+            AtomKind::Bracket { isotope, symbol, configuration, hcount: Some(h), charge, map } if h != VirtualHydrogen::H0 => AtomKind::Bracket { isotope, symbol,
+                configuration: match configuration { Some(Configuration::TH1) => Some(Configuration::TH2), Some(Configuration::TH2) => Some(Configuration::TH1), c => c },
+                hcount: Some(h), charge, map },
+            other => other }
+    }
+    fn dirn(k: &BondKind) -> bool { k.reverse() != *k }
+    fn resolve(b0: &BondKind, b: &BondKind) -> Option<(BondKind, BondKind)> {
+        if b0 == b { if dirn(b) { None } else { Some((b0.clone(), b.clone())) } }
+        else if *b0 == BondKind::Elided { Some((b.reverse(), b.clone())) }
+        else if *b == BondKind::Elided { Some((b0.clone(), b0.reverse())) }
+        else if dirn(b0) && *b == b0.reverse() { Some((b0.clone(), b.clone())) }
+        else { None }
+    }
+    pub fn denote(h: &[Ev]) -> Result<Vec<Atom>, RefErr> {
+        // pass 1: number the atom tokens, list each atom's slots in written order, list the ring tokens
+        let mut atoms: Vec<(AtomKind, Vec<Slot>)> = vec![];
+        let mut stack: Vec<usize> = vec![];
+        let mut rings: Vec<(usize, usize, String, BondKind)> = vec![];
+        let mut tree: HashSet<(usize, usize)> = HashSet::new();
+        for e in h {
+            match e {
+                Ev::Root(k) => { stack.push(atoms.len()); atoms.push((clone_kind(k), vec![])) }
+                Ev::Extend(b, k) => { let cur = *stack.last().ok_or(RefErr::Malformed)?; let id = atoms.len();
+                    atoms[cur].1.push(Slot::Next(b.clone(), id)); atoms.push((adj(k), vec![Slot::Prev(b.clone(), cur)])); tree.insert((cur.min(id), cur.max(id))); stack.push(id) }
+                Ev::Join(b, r) => { let cur = *stack.last().ok_or(RefErr::Malformed)?; let occ = rings.len();
+                    atoms[cur].1.push(Slot::Ring(b.clone(), occ)); rings.push((occ, cur, format!("{:?}", r), b.clone())) }
+                Ev::Pop(d) => { if *d >= stack.len() { return Err(RefErr::Malformed) } let n = stack.len() - d; stack.truncate(n) }
+            }
+        }
+        if atoms.is_empty() { return Err(RefErr::Malformed) }
+        // pass 2: a token closes the open token of the same number; classify what cannot be joined
+        let mut opens: HashMap<String, (usize, usize, BondKind)> = HashMap::new();
+        let mut bonded = tree;
+        let mut res: HashMap<usize, (usize, BondKind)> = HashMap::new();
+        let mut first_bad: Option<(usize, usize)> = None;
+        for (occ, a, r, b) in rings {
+            match opens.remove(&r) {
+                Some((occ0, a0, b0)) => {
+                    let key = (a.min(a0), a.max(a0));
+                    if a == a0 || bonded.contains(&key) { if first_bad.is_none() { first_bad = Some((a, a0)) } }
+                    else { match resolve(&b0, &b) { Some((l, rt)) => { bonded.insert(key); res.insert(occ0, (a, l)); res.insert(occ, (a0, rt)); }
+                                                    None => if first_bad.is_none() { first_bad = Some((a, a0)) } } }
+                }
+                None => { opens.insert(r, (occ, a, b)); }
+            }
+        }
+        if let Some((a, b)) = first_bad { return Err(RefErr::Join(a, b)) }
+        if !opens.is_empty() { let mut v: Vec<usize> = opens.values().map(|o| o.0).collect(); v.sort_unstable_by(|x, y| y.cmp(x)); return Err(RefErr::Unmatched(v)) }
+        Ok(atoms.into_iter().map(|(kind, slots)| Atom { kind, bonds: slots.into_iter().map(|s| match s {
+            Slot::Prev(b, a) => Bond::new(b.reverse(), a), Slot::Next(b, a) => Bond::new(b, a),
+            Slot::Ring(b, occ) => match res.get(&occ) { Some((p, k)) => Bond::new(k.clone(), *p), None => Bond::new(b, 0) } }).collect() }).collect())
+    }
+    /// what writing a well-formed adjacency list and reading it back must give (port of coq/Spec/Roundtrip.v, iterative)
+    pub fn expected_roundtrip(g: &[Atom]) -> Vec<Atom> {
+        let n = g.len();
+        let mut rank = vec![usize::MAX; n]; let mut order: Vec<(usize, Option<usize>)> = vec![];
+        for r in 0..n {
+            if rank[r] != usize::MAX { continue }
+            rank[r] = order.len(); order.push((r, None));
+            let mut stack: Vec<(usize, usize)> = vec![(r, 0)];
+            while let Some((x, i)) = stack.pop() {
+                if i < g[x].bonds.len() {
+                    stack.push((x, i + 1));
+                    let t = g[x].bonds[i].tid;
+                    if t < n && rank[t] == usize::MAX { rank[t] = order.len(); order.push((t, Some(x))); stack.push((t, 0)) }
+                }
+            }
+        }
+        let flip = |k: &AtomKind| match clone_kind(k) { AtomKind::Bracket { isotope, symbol, configuration, hcount, charge, map } => AtomKind::Bracket { isotope, symbol,
+            configuration: match configuration { Some(Configuration::TH1) => Some(Configuration::TH2), Some(Configuration::TH2) => Some(Configuration::TH1), c => c }, hcount, charge, map }, k => k };
+        order.iter().map(|(x, p)| { let a = &g[*x];
+            let ren = |b: &Bond| Bond::new(b.kind.clone(), if b.tid < n { rank[b.tid] } else { 0 });
+            match p {
+                None => Atom { kind: clone_kind(&a.kind), bonds: a.bonds.iter().map(ren).collect() },
+                Some(p) => { let idx = a.bonds.iter().position(|b| b.tid == *p).unwrap_or(0);
+                    let mut bonds: Vec<Bond> = vec![]; if let Some(b) = a.bonds.get(idx) { bonds.push(ren(b)) }
+                    for (j, b) in a.bonds.iter().enumerate() { if j != idx { bonds.push(ren(b)) } }
+                    Atom { kind: if idx % 2 == 1 { flip(&a.kind) } else { clone_kind(&a.kind) }, bonds } } } }).collect()
+    }
+    /// the bond-cursor map recomputed from the ranges of the atom and ring tokens (port of CorrLib.expected_bonds)
+    pub fn expected_bonds(h: &[Ev], atom_start: &dyn Fn(usize) -> usize, rnum_start: &dyn Fn(usize) -> usize) -> HashMap<(usize, usize), usize> {
+        let mut m = HashMap::new(); let mut stack: Vec<usize> = vec![]; let (mut na, mut nr) = (0usize, 0usize);
+        let mut open: HashMap<String, (usize, usize)> = HashMap::new();
+        for e in h {
+            match e {
+                Ev::Root(_) => { stack.push(na); na += 1 }
+                Ev::Extend(b, _) => { let sid = match stack.last() { Some(s) => *s, None => return m };
+                    let c = atom_start(na).saturating_sub(if *b != BondKind::Elided { 1 } else { 0 });
+                    m.insert((sid, na), c); m.insert((na, sid), c); stack.push(na); na += 1 }
+                Ev::Join(b, r) => { let sid = match stack.last() { Some(s) => *s, None => return m };
+                    let c = rnum_start(nr).saturating_sub(if *b != BondKind::Elided { 1 } else { 0 }); nr += 1;
+                    match open.remove(&format!("{:?}", r)) { Some((osid, oc)) => { m.insert((sid, osid), c); m.insert((osid, sid), oc); } None => { open.insert(format!("{:?}", r), (sid, c)); } } }
+                Ev::Pop(d) => { let n = stack.len().saturating_sub(*d); stack.truncate(n) }
+            }
+        }
+        m
+    }
+}
+
+/// unbounded regular input families (shared by the stack and the large-molecule runners); n is roughly the number of atoms
+pub fn family(name: &str, n: usize) -> String {
+    match name {
+        "chain" => "C".repeat(n),
+        "chain_bonds" => { let mut s = String::from("C"); for _ in 1..n { s.push_str("=C") } s }
+        "dots" => { let mut s = String::from("C"); for _ in 1..n { s.push_str(".C") } s }
+        "dot_rings" => { let mut s = String::from("C1CC1"); for _ in 1..n / 3 { s.push_str(".C1CC1") } s }
+        "branches" => { let mut s = String::from("C"); for _ in 1..n { s.push_str("(C)") } s }
+        "comb" => { let mut s = String::from("C"); for _ in 0..n / 4 { s.push_str("C(C)C") } s }
+        "comb_stereo" => { let mut s = String::from("C"); for _ in 0..n / 3 { s.push_str("[C@H](O)C") } s }
+        "deep" => { let d = n; let mut s = String::from("C"); for _ in 0..d { s.push_str("(C") } for _ in 0..d { s.push(')') } s }
+        "brackets" => "[13CH2]".repeat(n),
+        "nested8" => { let unit = "C(C(C(C(C(C(C(C(C))))))))"; unit.repeat(n / 9) }
+        "macrocycle" => format!("C1{}1", "C".repeat(n.max(3) - 1)),
+        "macro2" => format!("CC2CCCC2{}C1CCCCC1", "C".repeat(n.max(15) - 14)),
+        "branches_c" => format!("C{}C", "(C)".repeat(n.max(3) - 2)),
+        "tail_branch" => format!("{}(C)C", "C".repeat(n.max(3) - 2)),
+        "long_branch" => format!("C({})C", "C".repeat(n.max(3) - 2)),
+        "hub_then_ring" => format!("C{}1CC1", "(C)".repeat(n.max(4) - 3)),
+        "hub_ring_first" => format!("C1{}CC1", "(C)".repeat(n.max(4) - 3)),
+        "spiro" => "C1CC1".repeat((n / 3).max(1)),
+        // n ring tokens before the offending one
+        "rings_then_unmatched" => format!("{}C1", "C1CC1".repeat((n / 2).max(1))),
+        "rings_then_duplicate" => format!("{}C1C1", "C1CC1".repeat((n / 2).max(1))),
+        "ladder" => { let k = 99usize; let lab = |i: usize| if i < 10 { format!("{}", i) } else { format!("%{}", i) }; let mut s = String::new();
+            for round in 0..(n / (2 * k)).max(1) { let _ = round; for i in 1..=k { s.push('C'); s.push_str(&lab(i)) } for i in 1..=k { s.push('C'); s.push_str(&lab(i)) } } s }
+        "stereo_chain" => { let mut s = String::from("N"); for _ in 0..(n / 4).max(1) { s.push_str("[C@@H](C)C(=O)") } s.push('O'); s }
+        _ => panic!("unknown family"),
+    }
+}
